@@ -49,7 +49,10 @@ def run(tier: str) -> Outcome:
                                gb.Channel.waitclose, gb.Channel.receive, gb.Channel._getremoteerror, gb.Channel.close, gb.Channel.__del__,
                                gb.Message._channel_close_error, gb.RemoteError, gb.BaseGateway._thread_receiver,
                                gb.WorkerGateway.executetask, gb.geterrortext])
-    return e1.run_e1(
+    from vlib import e2run
+
+    e2out = e2run.outcome_from("C07", tier, e2run.run_scenarios(e2_specs(tier)), fns, [], "", [], "", "C07")
+    out = e1.run_e1(
         "C07", tier, build(tier), signature, fns,
         stubs=[
             "gateway_base's sys.stderr swallows warnings inside harnesses (the C-level write rejects symbolic strings)",
@@ -61,12 +64,63 @@ def run(tier: str) -> Outcome:
         bounds=("callback failure: 3 (thorough 2-4) items on the failing channel interleaved with 3 on a sibling channel, the failing item's "
                 "index symbolic (incl. 'never'), channel object alive / dropped symbolic; remote body: 0 and 2 (thorough 0-3) sends then raise / "
                 "no raise symbolic, sibling item values symbolic"),
-        outside=["interleavings with concurrently running user threads (schedule part)", "exception texts other than the fixed token"],
+        outside=["interleavings with user threads other than one waitclose() caller on the failing side", "exception texts other than the fixed token"],
         explanation=("bounded symbolic execution of the real callback-error path, close-error message handling and executetask error path over "
                      "scripted frame histories; oracle: peer gets earlier items, then exactly one RemoteError carrying type and message, then "
-                     "EOFError; failing side's channel closed with a RemoteError instance; sibling channel and receiver loop undisturbed"),
+                     "EOFError; failing side's channel closed with a RemoteError instance; sibling channel and receiver loop undisturbed; E2 (bounded "
+                     "model checking, every shared access a scheduling point): the receiver thread delivering 2-3 items to a callback that raises on a chosen "
+                     "one races a user thread in waitclose() on the failing side - callback sees the items up to the failing one and then the endmarker, one "
+                     "error frame leaves, the first waitclose raises RemoteError and the second returns, the receiver thread handles the remaining frames"),
     )
+    e2run.merge_into(out, e2out, "e2_callback_raises",
+                     "E2 part: queue.Queue = FIFO with blocking get, channel/callback tables = finite maps, loads_internal = identity, _geterrortext = fixed token; handlers run under gateway._receivelock")
+    return out
+
+
+def sc_callback_raises(nitems=3, fail_pos=1):
+    """the receiver thread delivers items to a callback that raises on item number fail_pos, while a user thread of the failing
+    side waits in waitclose(): in every schedule the callback sees the items up to the failing one, then the endmarker, nothing
+    afterwards; exactly one frame (the CHANNEL_CLOSE_ERROR) leaves; the first waitclose raises RemoteError, the second returns (exactly once); the receiver thread goes on."""
+    import z3
+
+    from vlib import e2
+    from vlib.py2ts import INT0
+
+    names = list(e2.ChannelScenario.ITEMS[:nitems])
+    sc = e2.ChannelScenario(f"callback_raises[{nitems},fail_at={fail_pos}]", prequeued=0, fail_item=names[fail_pos])
+    body = "    await_(G.cb_set == 1)\n"
+    for n in names:
+        body += f"    with gw._receivelock:\n        f._local_receive(1, {n})\n"
+    sc.add("receiver", f"def p({', '.join(['gw', 'f'] + names)}):\n" + body + "    G.recv_done = 1\n", ["gw", "f"] + names)
+    sc.add("user", "def p(ch, CB, END):\n    ch.setcallback(CB, endmarker=END)\n    G.cb_set = 1\n    try:\n        ch.waitclose(None)\n        G.wc_first_plain = 1\n"
+                   "    except RemoteError:\n        G.wc_remoteerror = 1\n    try:\n        ch.waitclose(None)\n        G.wc_second_plain = 1\n    except RemoteError:\n        G.wc_again = 1\n", ["ch", "CB", "END"])
+    want = names[: fail_pos + 1] + ["END"]
+    for g in ("cb_set", "wc_first_plain", "wc_second_plain", "wc_remoteerror", "wc_again", "frames_sent"):
+        sc.model.var(f"G.{g}", INT0)
+    sc.bad += [
+        ("custom", "callback_sequence_wrong", lambda enc, K: z3.And(z3.Not(enc.can_move(K)), z3.Not(sc.seen_is(enc, K, want))), lambda g, d, b: g.get("seen") != want),
+        ("custom", "not_exactly_one_error_frame", lambda enc, K: z3.And(z3.Not(enc.can_move(K)), enc.var(K, "G.frames_sent") != INT0 + 1), lambda g, d, b: g.get("frames_sent", 0) != 1),
+        ("flag", "wc_first_plain"), ("flag", "wc_again"), ("blocked", "user"), ("blocked", "receiver"), ("uncaught", "receiver", []),
+        ("final_flag_unset", "wc_remoteerror"), ("final_flag_unset", "wc_second_plain"),
+    ]
+    sc.good_flags += ["recv_done", "wc_remoteerror", "wc_second_plain"]
+    sc.observed += ["recv_done", "wc_remoteerror", "wc_again", "wc_first_plain", "wc_second_plain", "frames_sent"]
+    return sc.finish()
+
+
+def e2_specs(tier):
+    thorough = tier == "thorough"
+    combos = [(3, 1), (2, 0)] + ([(3, 0), (3, 2), (2, 1)] if thorough else [])
+    return [{"module": "props.c07", "factory": "sc_callback_raises", "args": {"nitems": n, "fail_pos": f}, "K": 0, "name": f"callback_raises[{n},fail_at={f}]",
+             "timeout": 3000 if thorough else 600, "validate": 3, "depth_probes": 200} for n, f in combos]
 
 
 def replay(rep: dict):
+    if rep.get("engine") == "E2":
+        from vlib import e2run
+
+        sc = sc_callback_raises(**rep["scenario"]["args"])
+        ghost, done, blocked, sched = sc.replay([tuple(x) for x in rep["order"]], mode=rep.get("mode", "sync"))
+        hits = e2run.real_bad(sc.bad, ghost, done, blocked)
+        return bool(hits) and not sched.diverged, f"hits={hits} ghost={ghost} blocked={blocked} diverged={sched.diverged}"
     return e1.replay_entry(rep)
